@@ -115,6 +115,10 @@ class Reject(Exception):
     pass
 
 
+CMP_PY = {"<": lambda a, b: a < b, ">": lambda a, b: a > b, "<=": lambda a, b: a <= b, ">=": lambda a, b: a >= b,
+          "==": lambda a, b: a == b, "!=": lambda a, b: a != b}
+
+
 TRK = [0.0] * NPTS      # largest discrepancy bound met at each point while building the current program
 
 
@@ -463,6 +467,44 @@ class ProgGen:
             cand = live + sorted(self.uninit)
             h = r.choice(cand); self.uninit.discard(h)
             self.vals[h] = vo; self.emit(("asgt", h, t, inner, outer)); self.last_lhs = h
+        elif x < 0.78:
+            # branch on a comparison that involves an active scalar: `if (L OP R) h = e1; else h = e2;` with every operand-kind
+            # combination of the comparison operators (active OP active, active OP passive, passive OP active, expressions).
+            # The recorded program is the straight-line trace of the branch taken at each input point.
+            op = r.choice(["<", ">", "<=", ">=", "<", ">", "==", "!="])
+            kind = r.choice(["aa", "ap", "pa", "pa", "ea", "pe", "ep"])
+            def side(k):
+                if k == "a":
+                    e, v = self.leaf(); return ("e", e), v
+                if k == "e":
+                    e, v = self.try_expr(2); return ("e", e), v
+                c, cv = self.scalar(); return ("c", c), self.const_val(cv)
+            (L, vL), (R, vR) = side(kind[0]), side(kind[1])
+            if kind[1] == "p" or kind[0] == "p":
+                # put the passive threshold between the values the active side takes, so that both branches are taken
+                act = vR if kind[0] == "p" else vL
+                lo, hi = min(act.v), max(act.v)
+                if hi - lo > 1e-2:
+                    cv = round(r.uniform(lo, hi), 3)
+                    if cv == int(cv):
+                        cv += 0.125
+                    if kind[0] == "p":
+                        L, vL = ("c", ("d", float(cv))), self.const_val(float(cv))
+                    else:
+                        R, vR = ("c", ("d", float(cv))), self.const_val(float(cv))
+            for a_, b_ in zip(vL.v, vR.v):
+                if abs(a_ - b_) <= 1e-3 * max(abs(a_), abs(b_), 1.0):
+                    raise Reject()      # near-tie: rounding could send the two evaluations down different branches
+            taken = [CMP_PY[op](a_, b_) for a_, b_ in zip(vL.v, vR.v)]
+            e1, v1 = self.try_expr(depth)
+            e2, v2 = self.try_expr(depth)
+            cand = live + sorted(self.uninit)
+            h = r.choice(cand); self.uninit.discard(h)
+            self.vals[h] = Val([v1.v[i] if t else v2.v[i] for i, t in enumerate(taken)],
+                               [max(vL.dis[i], vR.dis[i], v1.dis[i] if t else v2.dis[i]) for i, t in enumerate(taken)])
+            self.emit(("br", h, op, L, R, e1, e2, taken)); self.last_lhs = h
+            self.note("kinds", "branch %s %s" % (kind, op))
+            self.note("kinds", "branch taken both ways" if (any(taken) and not all(taken)) else "branch taken one way")
         else:
             cand = live + sorted(self.uninit)
             h = r.choice(cand)
@@ -588,6 +630,9 @@ def model_lines(stmts, pt):
             out.append("asg %d %s" % (st[1], tok_expr(st[2])))
         elif k == "asgt":
             out.append("asgt %d %d %s ; %s" % (st[1], st[2], tok_expr(st[3]), tok_expr(st[4])))
+        elif k == "br":
+            # straight-line trace: the assignment of the branch the comparison selects at this point
+            out.append("asg %d %s" % (st[1], tok_expr(st[5] if st[7][pt] else st[6])))
         elif k == "cop":
             out.append("cop %d %s %s" % (st[1], st[2], tok_expr(st[3])))
         elif k == "copp":
@@ -643,6 +688,11 @@ def cxx_adept(stmts, pid, npts):
             inner = cxx_expr(st[3], "adept", var, _spell)
             var2 = lambda h, t=t, inner=inner: ("adouble(%s)" % inner) if h == t else "(*p%d)" % h
             w("  *p%d = %s; c01::ok_tmp_val(st, p%d);" % (st[1], cxx_expr(st[4], "adept", var2, _spell), st[1]))
+        elif k == "br":
+            side = lambda x: cxx_expr(x[1], "adept", var, _spell) if x[0] == "e" else cxx_scalar(x[1])
+            w("  if (%s %s %s) { *p%d = %s; } else { *p%d = %s; } c01::ok_val(p%d);" % (
+                side(st[3]), st[2], side(st[4]), st[1], cxx_expr(st[5], "adept", var, _spell),
+                st[1], cxx_expr(st[6], "adept", var, _spell), st[1]))
         elif k == "cop":
             w("  *p%d %s= %s; c01::ok_val(p%d);" % (st[1], CPP_BIN[st[2]], cxx_expr(st[3], "adept", var, _spell), st[1]))
         elif k == "copp":
@@ -698,6 +748,11 @@ def cxx_dual(stmts, pid, npts):
         elif k == "asgt":
             t = st[2]
             w("  { Dual d%d = %s; d%d = %s; }" % (t, cxx_expr(st[3], "dual", var, _spell), st[1], cxx_expr(st[4], "dual", var, _spell)))
+        elif k == "br":
+            side = lambda x: ("(%s).v" % cxx_expr(x[1], "dual", var, _spell)) if x[0] == "e" else ("(double)%s" % cxx_scalar(x[1]))
+            w("  if (%s %s %s) { d%d = %s; } else { d%d = %s; }" % (
+                side(st[3]), st[2], side(st[4]), st[1], cxx_expr(st[5], "dual", var, _spell),
+                st[1], cxx_expr(st[6], "dual", var, _spell)))
         elif k == "cop":
             w("  d%d = d%d %s %s;" % (st[1], st[1], CPP_BIN[st[2]], cxx_expr(st[3], "dual", var, _spell)))
         elif k == "copp":
@@ -731,6 +786,8 @@ def funcs_used(stmts):
         for x in st[1:]:
             if isinstance(x, tuple) and x and x[0] in ("v", "u", "b", "l", "r", "q", "n"):
                 walk(x)
+            if isinstance(x, tuple) and len(x) == 2 and x[0] == "e":
+                walk(x[1])
         if st[0] == "cop":
             s.add(st[2])
         if st[0] == "copp":
